@@ -31,9 +31,14 @@ def strip(n):
     return n
 
 
-def field_of(n):
-    """recv expr -> (owner type, field name) if it is a field place"""
+_alias = {}
+
+
+def field_of(n, depth=0):
+    """recv expr -> (owner type, field name) if it is a field place (a local bound by `let x = &place;` stands for it)"""
     n = strip(n)
+    if n.get('k') == 'Path' and n.get('res') == 'local' and n.get('id') in _alias and depth < 4:
+        return field_of(_alias[n['id']], depth + 1)
     if n.get('k') == 'Field':
         from facts import strip_ty
         return (strip_ty(n.get('base_ty') or ''), n['name'])
@@ -60,14 +65,26 @@ def closure_key(cl):
 def run(ctx):
     F = ctx.F
     res = RuleResult('R-SORTED', 'binary searches run over tables sorted on the same key')
-    res.floor = 5
+    res.floor = 3     # one search per table at least; duplicated searches may be merged into helpers
     sorts_field = {}      # (T, F) -> [(fn, key)]
     struct_sorted = {}    # (T, F) -> [(fn, key)]
     btree_assign = {}     # (T, F) -> fn
     searches = []
+    fn_alias = {}
     for path, h in F.hir.items():
         local_sorts = {}    # local id -> key
         local_ty = {}
+        al = {}
+
+        def lets(n):
+            if n.get('k') == 'Let' and n.get('pat', {}).get('k') == 'Bind' and n.get('init') is not None:
+                i = strip(n['init'])
+                if i.get('k') == 'Field':
+                    al[n['pat']['id']] = n['init']
+        walk(h['body'], lets)
+        fn_alias[path] = al
+        _alias.clear()
+        _alias.update(al)
 
         def visit(n):
             k = n.get('k')
@@ -103,6 +120,8 @@ def run(ctx):
                             btree_assign[fo] = path
         walk(h['body'], visit)
     for path, n in searches:
+        _alias.clear()
+        _alias.update(fn_alias.get(path, {}))
         fo = field_of(n['recv'])
         m = norm_path(n.get('callee')).split('::')[-1]
         skey = None
